@@ -84,6 +84,20 @@ def step (s : S) (line : String) : S × String :=
       | some t => ({ s with st := writeAt s.st t at_ bytes }, "ok")
       | none => (s, "bad-op")
     | _, _, _ => (s, "bad-op")
+  | ["abort", n] =>               -- a refresh whose copy failed: reader and writer are released, nothing is published
+    match nat? n with
+    | some n =>
+      match (s.op n).ticket, (s.op n).src with
+      | some t, some src => (({ s with st := refreshDone s.st t src }).dropOp n, "ok")
+      | _, _ => (s, "bad-op")
+    | none => (s, "bad-op")
+  | ["corrupt-op", n] =>          -- integrity callback(false) for the source location of a refresh in progress
+    match nat? n with
+    | some n =>
+      match (s.op n).src with
+      | some src => ({ s with st := reportBad s.st src }, "ok")
+      | none => (s, "bad-op")
+    | none => (s, "bad-op")
   | ["copy", n] =>
     match nat? n with
     | some n =>
